@@ -28,6 +28,7 @@ const modPath = "go.brendoncarroll.net/p2p"
 var defaultPkgs = []string{
 	"s/swarmutil", "s/vswarm", "s/memswarm", "s/fragswarm", "p/mbapp", "p/p2pmux",
 	"s/multiswarm", "s/mapswarm", "s/wlswarm", "p/p2pke", "s/p2pkeswarm", "p/kademlia",
+	"s/udpswarm",
 }
 
 const (
@@ -41,9 +42,10 @@ const (
 )
 
 var importSwap = map[string]string{
-	"sync":                         pVsync,
-	"sync/atomic":                  pVatomic,
-	"golang.org/x/sync/errgroup":   pErrgroup,
+	"sync":                       pVsync,
+	"sync/atomic":                pVatomic,
+	"golang.org/x/sync/errgroup": pErrgroup,
+	"net":                        "verifmc/vrt/vnet",
 }
 
 var timeFuncs = map[string]bool{"Now": true, "Since": true, "Until": true, "After": true, "AfterFunc": true, "NewTimer": true, "NewTicker": true, "Sleep": true, "Timer": true, "Ticker": true}
@@ -58,7 +60,7 @@ type fileCtx struct {
 	instr map[string]bool // instrumented package paths
 
 	// decisions taken in the typed pre-pass, keyed by original node
-	chanExternal map[ast.Expr]bool     // operand of <-x / send target is a native channel
+	chanExternal map[ast.Expr]bool        // operand of <-x / send target is a native channel
 	chanBuiltin  map[*ast.CallExpr]string // close/len/cap on a channel, "make" for make(chan)
 	mapRange     map[*ast.RangeStmt]bool
 	defRHS       map[types.Object]ast.Expr
